@@ -82,13 +82,15 @@ def parse(lexer):
             lexer.getPos(),
         )
     if isinstance(result, NodeReturn):
-        result = result.expression
+        result = result.expression or NodeNull(result.pos)
     elif isinstance(result, NodeBlock):
         expressions = result.expressions
         if len(expressions) > 0:
             lastexpr = expressions[-1]
             if isinstance(lastexpr, NodeReturn):
-                expressions[-1] = lastexpr.expression
+                expressions[-1] = (
+                    lastexpr.expression or NodeNull(lastexpr.pos)
+                )
     return result
 
 
@@ -1017,8 +1019,12 @@ def parse_primary_expr(lexer, unary_minus=False):
         result = NodeLiteral(ValueString(token.value), token.pos)
         result = deref_or_invoke(lexer, result)
     elif token.type == "int":
+        try:
+            intvalue = int(token.value)
+        except ValueError:
+            raise CklSyntaxError("Invalid int literal", token.pos)
         result = NodeLiteral(
-            ValueInt(int(token.value) * (-1 if unary_minus else 1)),
+            ValueInt(intvalue * (-1 if unary_minus else 1)),
             token.pos,
         )
         result = invoke(lexer, result)
@@ -1036,7 +1042,7 @@ def parse_primary_expr(lexer, unary_minus=False):
     elif token.type == "pattern":
         try:
             pattern = ValuePattern(token.value[2:-2])
-        except re.error as e:
+        except (re.error, OverflowError, RecursionError) as e:
             raise CklSyntaxError(
                 f"Invalid pattern {token.value}: {e}", token.pos
             )
